@@ -1,2 +1,140 @@
--- stub: replaced by the C17 driver
-def main : IO Unit := pure ()
+/-
+  Driver.C17 — runs the C17 CodeModel (Golib.Logger.Model) on operation lines.
+
+    NEW t0 level onameHex logIDHex homeHex dirspec   → ok <curHex>
+        dirspec: `-` or  nameHex:contentHex,…        (regular files directly under <home>/logs)
+    LOG t meth idHex msgHex                          → gate | rate | w
+    PROC t                                           → del <nameHex,…|-> <curHex|none>
+    CLR t                                            → del <nameHex,…|->
+    LVL n                                            → ok
+    CFG rot keep interval levelHex                   → ok
+    READ t fileHex endpos length snap                → nil | nilopen | nilread | data before next textHex
+        snap: `-` or  relpathHex:f:contentHex / relpathHex:d:size , …
+    DUMP                                             → nameHex=initHex|chunk|chunk;…   (chunk: l.hex n.hex x.hex)
+    RESOLVE homeHex fileHex                          → none | seg/seg/…(hex, joined)   (stateless)
+    YMD unit / UNITOF hex                            → calendar functions (stateless)
+-/
+import Golib.Logger.Model
+import Driver.Common
+
+open Logger Drv
+
+def parseMeth : String → Option Meth
+  | "errorf" => some .errorf | "error" => some .error | "warnf" => some .warnf | "warn" => some .warn
+  | "infof" => some .infof | "info" => some .info | "infoln" => some .infoln
+  | "debugf" => some .debugf | "debug" => some .debug
+  | "printf" => some .printf | "println" => some .println | "printlnstd" => some .printlnStd
+  | _ => none
+
+def parseDirEntry (s : String) : Option (Bytes × File) :=
+  match s.splitOn ":" with
+  | [n, c] => do
+    let n ← ofHex n
+    let c ← ofHex c
+    pure (n, ⟨c, []⟩)
+  | _ => none
+
+def parseSnapEntry (s : String) : Option (Bytes × Entry) :=
+  match s.splitOn ":" with
+  | [p, "f", c] => do
+    let p ← ofHex p
+    let c ← ofHex c
+    pure (p, .file c)
+  | [p, "d", sz] => do
+    let p ← ofHex p
+    let sz ← parseInt sz
+    pure (p, .dir sz)
+  | _ => none
+
+def showChunk : Chunk → String
+  | .line t => "l." ++ hexOf t
+  | .toNl p => "n." ++ hexOf p
+  | .toReset p => "x." ++ hexOf p
+
+def showFile (e : Bytes × File) : String :=
+  hexOf e.1 ++ "=" ++ "|".intercalate (hexOf e.2.init :: e.2.chunks.map showChunk)
+
+def showDir (d : Dir) : String :=
+  if d.isEmpty then "-" else ";".intercalate (d.map showFile)
+
+def showCur : Option Bytes → String
+  | none => "none"
+  | some n => hexOf n
+
+def showRead : ReadRes → String
+  | .nilQuiet => "nil"
+  | .nilOpenErr => "nilopen"
+  | .nilReadErr => "nilread"
+  | .data d => s!"data {d.before} {d.next} {hexOf d.text}"
+
+def showDec : Dec → String
+  | .gate => "gate" | .rate => "rate" | .written => "w"
+
+def cal : Cal := Cal.std
+
+def withSt (st : Option St) (f : St → St × String) : Option St × String :=
+  match st with
+  | none => (none, "no-logger")
+  | some s => let (s', o) := f s; (some s', o)
+
+def answer (st : Option St) (line : String) : Option St × String :=
+  match line.splitOn " " with
+  | ["NEW", t0, level, oname, logID, home, dirspec] =>
+    match parseInt t0, parseInt level, ofHex oname, ofHex logID, ofHex home, parseList parseDirEntry dirspec with
+    | some t0, some level, some oname, some logID, some home, some dir =>
+      let s := St.new cal t0 (Conf.default level oname logID) home dir
+      (some s, "ok " ++ showCur s.cur)
+    | _, _, _, _, _, _ => (st, "bad-op")
+  | ["LOG", t, m, id, msg] =>
+    match parseInt t, parseMeth m, ofHex id, ofHex msg with
+    | some t, some m, some id, some msg =>
+      withSt st fun s => let (s', d) := logCall t m id msg s; (s', showDec d)
+    | _, _, _, _ => (st, "bad-op")
+  | ["PROC", t] =>
+    match parseInt t with
+    | some t => withSt st fun s =>
+        let (s', d) := process cal t s
+        (s', "del " ++ listOf hexOf d ++ " " ++ showCur s'.cur)
+    | none => (st, "bad-op")
+  | ["CLR", t] =>
+    match parseInt t with
+    | some t => withSt st fun s =>
+        let (s', d) := clearOld cal t s
+        (s', "del " ++ listOf hexOf d)
+    | none => (st, "bad-op")
+  | ["LVL", n] =>
+    match parseInt n with
+    | some n => withSt st fun s => ((step cal s (.setLevel n)).1, "ok")
+    | none => (st, "bad-op")
+  | ["CFG", rot, keep, interval, level] =>
+    match parseInt keep, parseInt interval, ofHex level with
+    | some keep, some interval, some level =>
+      withSt st fun s => ((step cal s (.applyConfig (rot == "1") keep interval level)).1, "ok")
+    | _, _, _ => (st, "bad-op")
+  | ["READ", t, file, endpos, length, snap] =>
+    match parseInt t, ofHex file, parseInt endpos, parseInt length, parseList parseSnapEntry snap with
+    | some t, some file, some endpos, some length, some snap =>
+      withSt st fun s =>
+        match step cal s (.read t file endpos length snap) with
+        | (s', .read r) => (s', showRead r)
+        | (s', _) => (s', "bad-op")
+    | _, _, _, _, _ => (st, "bad-op")
+  | ["DUMP"] => withSt st fun s => (s, showDir s.dir)
+  | ["RESOLVE", home, file] =>
+    match ofHex home, ofHex file with
+    | some home, some file =>
+      match resolve home file with
+      | none => (st, "none")
+      | some rel => (st, "in " ++ hexOf (joinSlash rel))
+    | _, _ => (st, "bad-op")
+  | ["YMD", u] =>
+    match parseInt u with
+    | some u => (st, hexOf (cal.ymd u))
+    | none => (st, "bad-op")
+  | ["UNITOF", d] =>
+    match ofHex d with
+    | some d => (st, match cal.unitOf d with | none => "panic" | some u => toString u)
+    | none => (st, "bad-op")
+  | _ => (st, "bad-op")
+
+def main : IO Unit := mainLoop (none : Option St) answer
